@@ -51,9 +51,8 @@ def pairing(ctx, rule, only=None):
     if only is None:
         # the same discipline for anything else derived from the contents: nothing is kept in lazily filled attributes
         # of a container (they are copied with it) or in containers that outlive the call
-        from .configtime import no_lazily_filled_attributes, no_state_outside_objects
-        no_lazily_filled_attributes(ctx, rule, ('Container',))
-        no_state_outside_objects(ctx, rule, classes=('Container', 'Unit', 'Substance'))
+        from .configtime import derived_values
+        derived_values(ctx, rule, ('Container', 'Unit', 'Substance'))
     count = 0
     for m in model.cls('Container').methods.values():
         if only is not None and m.name not in only:
